@@ -252,7 +252,8 @@ func (sm *StrategyManager) GetOrCreateCounter(backend string) *atomic.Uint32 {
 }
 
 func (sm *StrategyManager) getOrCreateCounter(backend string) *atomic.Uint32 {
-	value, _ := sm.connectionCounters.LoadOrStore(backend, &atomic.Uint32{})
+	// Counters are kept per backend, not per spelling of its address.
+	value, _ := sm.connectionCounters.LoadOrStore(canonicalBackendAddress(backend), &atomic.Uint32{})
 	counter, ok := value.(*atomic.Uint32)
 	if !ok {
 		return nil
@@ -261,7 +262,7 @@ func (sm *StrategyManager) getOrCreateCounter(backend string) *atomic.Uint32 {
 }
 
 func (sm *StrategyManager) getCounter(backend string) *atomic.Uint32 {
-	value, ok := sm.connectionCounters.Load(backend)
+	value, ok := sm.connectionCounters.Load(canonicalBackendAddress(backend))
 	if !ok {
 		return nil
 	}
